@@ -135,6 +135,8 @@ HOSTILE = [
     "1 U.S. 1 (" + "2" * 5000 + ")",
     "§ " + "4" * 5000,
     "1 Minn. L. Rev. " + "5" * 5000,
+    "1 T.C. at " + "7" * 5000,
+    "Foo, 1 U.S., at " + "7" * 400,
 ]
 
 SEPARATORS = [" ", ", ", "; ", ". ", " and ", "\n", "  ", ""]
